@@ -904,6 +904,7 @@ func runC12(c *Ctx) {
 	// named as such before the lock rules speak about the code it moved.
 	c.timerCallQueues(resolveTimerRoles(c), "C12.R8")
 	timerRules(c, "C12.R")
+	c.timerCancelSynchronises(resolveTimerRoles(c), "C12.R9")
 }
 
 // timerRules runs the timer rules under the rule-id prefix pfx (C12.R, C05.T).
